@@ -80,7 +80,7 @@ def run(ctx, rep):
             rep.fail('c15leaf:%r' % (l,), 'leaf %r parses to %s printing %r, which parses to %s printing %r'
                      % (l, type(t1).__name__, p1, type(t2).__name__, str(t2)), {'leaf': l})
         rep.case(key='leaf' + l, nontrivial=True)
-    _rule_sets(ctx, rep, enf, [v for v in values if 'http' not in json.dumps(v)])
+    _rule_sets(ctx, rep, enf, values)
     _rule_default_eq(ctx, rep, values)
 
 
@@ -107,12 +107,15 @@ def _rule_sets(ctx, rep, enf, values):
                          {'rules': rules})
         if str(rs2) != dumped:
             rep.fail(key, 'dump(load(dump)) differs from dump', {'rules': rules})
-        enf.e.set_rules(rs, use_conf=False)
-        d1 = [decisions(enf, nm) for nm in sorted(rs)]
-        enf.e.set_rules(rs2, use_conf=False)
-        d2 = [decisions(enf, nm) for nm in sorted(rs)]
-        if d1 != d2:
-            rep.fail(key, 'dump/load changes decisions', {'rules': rules})
+        if 'http' not in dumped:         # remote leaves are compared by printed form only (never evaluated here)
+            enf.e.set_rules(rs, use_conf=False)
+            d1 = [decisions(enf, nm) for nm in sorted(rs)]
+            enf.e.set_rules(rs2, use_conf=False)
+            d2 = [decisions(enf, nm) for nm in sorted(rs)]
+            if d1 != d2:
+                rep.fail(key, 'dump/load changes decisions', {'rules': rules})
+        else:
+            rep.stat('rule_set_with_remote_leaf')
         rep.stat('rule_set')
         rep.case(key=key, nontrivial=k > 0)
     rep.rules.append('%d rule sets of 0..6 such rules (with and without always-allow entries) through str(Rules) and '
